@@ -45,6 +45,7 @@ type recRL struct {
 	in    base.Readline
 	lines [][]byte
 	eof   bool
+	errs  []string // errors other than io.EOF returned by the line reader
 }
 
 func (r *recRL) Read(prompt string) ([]byte, error) {
@@ -52,8 +53,11 @@ func (r *recRL) Read(prompt string) ([]byte, error) {
 	if !r.eof {
 		r.lines = append(r.lines, append([]byte(nil), l...)) // copy: ReadMultiline rewrites "#!" in place
 	}
-	if err != nil {
+	if err == io.EOF {
 		r.eof = true
+	} else if err != nil {
+		// not the end of the stream: keep recording (the bytes that follow are still delivered)
+		r.errs = append(r.errs, err.Error())
 	}
 	return l, err
 }
@@ -69,6 +73,7 @@ type obs struct {
 	lines   [][]byte
 	panic   interface{}
 	runaway bool
+	rlErrs  []string
 }
 
 func runReader(input string, allc bool) obs {
@@ -103,6 +108,7 @@ func runReader(input string, allc bool) obs {
 		}
 	})
 	o.lines = rl.lines
+	o.rlErrs = rl.errs
 	return o
 }
 
@@ -233,6 +239,9 @@ type env struct {
 	idx   int
 	extra map[string]int
 	known map[string]bool // keys of status "known" entries of known_findings.json
+	// correspondence cases with long lines go to a shard of their own (cost is per byte, not per case)
+	toLong    bool
+	longCases []string
 }
 
 func (e *env) parses(src string) bool {
@@ -267,7 +276,7 @@ func (e *env) check(kind, name, input string, allc, toCoq, wantParse bool) {
 			e.extra["proposed_known_finding_reproduced:"+key+": "+what]++
 			return
 		}
-		e.rep.Fail(vh.Failure{Key: key, What: what, Input: map[string]interface{}{"kind": kind, "name": name, "allcomments_first": allc, "input": short(input), "input_hex_prefix": hex.EncodeToString([]byte(short(input)))}, Got: got, Want: want})
+		e.rep.Fail(vh.Failure{Key: key, What: what, Input: map[string]interface{}{"kind": kind, "name": name, "allcomments_first": allc, "input": short(input), "input_len": len(input), "input_hex_prefix": hex.EncodeToString([]byte(short(input)))}, Got: got, Want: want})
 		e.extra["fail:"+what]++
 	}
 	o := runReader(input, allc)
@@ -278,6 +287,9 @@ func (e *env) check(kind, name, input string, allc, toCoq, wantParse bool) {
 	if o.runaway {
 		fail("reader loop does not end", nil, nil)
 		return
+	}
+	if len(o.rlErrs) > 0 {
+		fail("the line reader returned an error before the end of the stream: "+o.rlErrs[0], map[string]interface{}{"errors": len(o.rlErrs), "line_lengths": lineLens(o.lines)}, nil)
 	}
 	// ---- O1
 	delivered := bytes.Join(o.lines, nil)
@@ -321,9 +333,7 @@ func (e *env) check(kind, name, input string, allc, toCoq, wantParse bool) {
 		fail("O1 concatenation of chunks != input", short(string(out)), short(string(delivered)))
 		return
 	}
-	if otherErr {
-		return
-	}
+	_ = otherErr // (already reported; the chunks are still judged by O2-O5: an error does not excuse a cut inside a literal)
 	sc := scanText(out)
 	for _, k := range rw {
 		okStart := false
@@ -351,7 +361,7 @@ func (e *env) check(kind, name, input string, allc, toCoq, wantParse bool) {
 		off, ti := 0, 0
 		for ci, c := range o.chunks {
 			off += len(c.Src)
-			if c.Err != "" {
+			if c.Err == "EOF" || c.Err == "UnexpectedEOF" || ci == len(o.chunks)-1 {
 				break // the final chunk
 			}
 			depth, minDepth := 0, 0
@@ -459,8 +469,13 @@ func (e *env) check(kind, name, input string, allc, toCoq, wantParse bool) {
 			classes = "(Some " + rle(si.class) + ")"
 			e.extra["classification_compared_with_go/scanner"]++
 		}
-		e.cw.Add(fmt.Sprintf("mkCase %d %s false (unhex \"%s\") %s %s %s %s", e.idx, vh.CoqBool(allc), hex.EncodeToString([]byte(input)),
-			vh.CoqList(lens, "Z"), vh.CoqList(rws, "Z"), vh.CoqList(cs, "ochunk"), classes))
+		term := fmt.Sprintf("mkCase %d %s false (unhex \"%s\") %s %s %s %s", e.idx, vh.CoqBool(allc), hex.EncodeToString([]byte(input)),
+			vh.CoqList(lens, "Z"), vh.CoqList(rws, "Z"), vh.CoqList(cs, "ochunk"), classes)
+		if e.toLong {
+			e.longCases = append(e.longCases, term)
+		} else {
+			e.cw.Add(term)
+		}
 		e.rep.CaseInput(e.idx, map[string]interface{}{"kind": kind, "name": name, "allcomments_first": allc, "input": input})
 		e.idx++
 		e.extra["coq_cases"]++
@@ -469,6 +484,14 @@ func (e *env) check(kind, name, input string, allc, toCoq, wantParse bool) {
 	if e.idx%53 == 7 {
 		e.rep.Sample(map[string]interface{}{"kind": kind, "name": name, "input": short(input), "chunks": len(o.chunks)})
 	}
+}
+
+func lineLens(lines [][]byte) []int {
+	var out []int
+	for _, l := range lines {
+		out = append(out, len(l))
+	}
+	return out
 }
 
 func bucket(n int) string {
@@ -539,6 +562,72 @@ var templatesExt = []string{
 	"last line without newline",
 }
 
+
+// ---------------------------------------------------------------- long physical lines
+
+// longLineKinds: one physical line of exactly L bytes (newline included) for each syntactic place where a cut in
+// the middle of the line would leave the reader inside a literal, a comment or an open bracket, or after an
+// operator / comma. The readers buffer their input (bufio: 4096 bytes by default): a line must be delivered
+// whole whatever its length.
+var longLineKinds = []string{"string", "rawstring", "rune-list", "linecomment", "blockcomment", "list", "call", "binop", "stmts", "ident", "blanks", "nested"}
+
+func fill(pattern string, n int) string {
+	if n <= 0 {
+		return ""
+	}
+	var sb strings.Builder
+	for sb.Len() < n {
+		sb.WriteString(pattern)
+	}
+	return sb.String()[:n]
+}
+
+// padTo appends blanks to body so that body + tail has exactly L-1 bytes, then the newline
+func padTo(body, tail string, L int) string {
+	return body + fill(" ", L-1-len(body)-len(tail)) + tail + "\n"
+}
+
+// repeatTo repeats unit while head + units + close fits in L-1 bytes, then pads with blanks
+func repeatTo(head, unit, last, close string, L int) string {
+	var sb strings.Builder
+	sb.WriteString(head)
+	for sb.Len()+len(unit)+len(last)+len(close) <= L-1 {
+		sb.WriteString(unit)
+	}
+	sb.WriteString(last)
+	return padTo(sb.String(), close, L)
+}
+
+func longLine(kind string, L int) string {
+	switch kind {
+	case "string": // content: brackets, comment starts and quotes of the other kinds
+		return "s := \"" + fill("ab ({[ // /* ' ` + , ", L-8) + "\"\n"
+	case "rawstring":
+		return "r := `" + fill("ab ({[ // /* ' \" \\ + , ", L-8) + "`\n"
+	case "rune-list":
+		return repeatTo("q := []rune{", `'"', '(', '{', `, `'x'`, "}", L)
+	case "linecomment":
+		return "// " + fill("c \" ' ` ({[ /* + , ", L-4) + "\n"
+	case "blockcomment":
+		return "/* " + fill("c \" ' ` ({[ // + , ", L-14) + " */ q := 1\n"
+	case "list":
+		return repeatTo("v := []int{", "1, ", "2", "}", L)
+	case "call":
+		return repeatTo("f(", "x, g(y), ", "z", ")", L)
+	case "binop":
+		return repeatTo("y = 1", " + 1", "", "", L)
+	case "stmts":
+		return repeatTo("", "a++; ", "b--", "", L)
+	case "ident":
+		return "x" + fill("abcdefghij", L-7) + " := 1\n"
+	case "blanks":
+		return padTo("a := 1", "", L)
+	case "nested":
+		return repeatTo("w := [][]string{", `{"(", "{"}, `, `{"["}`, "}", L)
+	}
+	panic("longLine: unknown kind " + kind)
+}
+
 func seqName(ix []int) string {
 	var p []string
 	for _, i := range ix {
@@ -553,13 +642,15 @@ func main() {
 	rep := vh.NewReport(a, "inputs: (1) corpus/C26/*.txt; (2) sequences of line templates (39 Go templates: strings/runes with quotes and escapes, raw string and block comment spanning lines, "+
 		"line comments, brackets, operators / % + - &^ <- , at line end, keywords at line end, selectors, ++/--, control bytes in literals, /***/): every sequence of length <=2 (quick) / <=3 (thorough), PRNG-sampled sequences of length 3..4 (quick) / 4..6 (thorough), "+
 		"plus sequences mixing 8 non-Go templates (#!, ~quote, unterminated literals, '#', U+2029, missing final newline) for the lossless and correspondence checks only; "+
+		"(2b) one physical line of exactly 4095, 4096, 4097, 8192, 8193, ~6000, ~12000 and ~65537 bytes (thorough: 32 more lengths up to 131073) of each of 12 kinds (string, raw string, rune list, line comment, block comment, composite literal, call, binary operators, statements, identifier, trailing blanks, nested literals), alone, between template lines and twice in a row; "+
 		"(3) files of $GOROOT/src (quick: 300 sampled; thorough: all, testdata/vendor excluded) and line-boundary prefixes (<= 2.5 KB) of a sample of them for the Coq side. "+
 		"First call with ReadOptCollectAllComments (as EvalReader) and, for template sequences, also without (as Repl). "+
 		"A case is non-trivial when the reader returned >= 2 chunks; distinct by SHA-256 of (option, input)")
 	e := &env{a: a, rep: rep, wd: vh.NewWatchdog(rep, 20*time.Second), g: base.NewGlobals(), extra: map[string]int{}}
 	e.g.Stderr = io.Discard
 	e.g.Stdout = io.Discard
-	e.cw = vh.NewCases(a, "From Coq Require Import List NArith ZArith String.\nFrom Verif Require Import Common.GoStr C26.Model.\nImport ListNotations.\nOpen Scope string_scope.\nOpen Scope Z_scope.", "case", "mismatches", 200)
+	coqHeader := "From Coq Require Import List NArith ZArith String.\nFrom Verif Require Import Common.GoStr C26.Model.\nImport ListNotations.\nOpen Scope string_scope.\nOpen Scope Z_scope."
+	e.cw = vh.NewCases(a, coqHeader, "case", "mismatches", 200)
 
 	// ---- (1) corpus
 	verif := os.Getenv("VERIF_DIR")
@@ -667,6 +758,46 @@ func main() {
 	}
 	rep.Extra["exhaustive_sequences"] = nExh
 
+	// ---- (2b) long physical lines, alone and between template lines
+	{
+		lens := []int{4095, 4096, 4097, 8192, 8193, 4098 + rng.Intn(4000), 8194 + rng.Intn(8000), 65536 + rng.Intn(3)}
+		if a.Thorough() {
+			lens = append(lens, 4094, 4098, 8191, 12288, 12289, 16384, 16385, 131073)
+			for k := 0; k < 24; k++ {
+				lens = append(lens, 3000+rng.Intn(30000))
+			}
+		}
+		for ki, kind := range longLineKinds {
+			for li, L := range lens {
+				pre := make([]int, rng.Intn(3))
+				post := make([]int, rng.Intn(3))
+				for i := range pre {
+					pre[i] = rng.Intn(nT)
+				}
+				for i := range post {
+					post[i] = rng.Intn(nT)
+				}
+				line := longLine(kind, L)
+				if len(line) != L {
+					panic(fmt.Sprintf("longLine(%s,%d) has %d bytes", kind, L, len(line)))
+				}
+				in := build(pre, templates) + line + build(post, templates)
+				// the name is a complete recipe of the input (failure reports abbreviate the input itself)
+				name := fmt.Sprintf("%s:len=%d:before=[%s]:after=[%s]", kind, L, seqName(pre), seqName(post))
+				// Coq side: the five boundary lengths (4095..8193), one kind each (thorough: every kind, rotating)
+				toCoq := li < 5 && li == ki%5 && (ki < 5 || a.Thorough())
+				e.toLong = true
+				e.check("longline", name, in, true, toCoq, true)
+				e.toLong = false
+				e.check("longline-repl", name, in, false, false, true)
+				// and two long lines in a row: the second starts at an arbitrary offset of the reader's buffer
+				if li%3 == 0 {
+					e.check("longline", name+":twice", in+line, true, false, true)
+				}
+			}
+		}
+	}
+
 	// ---- (3) standard library
 	goroot := ""
 	if outb, err := exec.Command("go", "env", "GOROOT").Output(); err == nil {
@@ -732,6 +863,13 @@ func main() {
 		}
 	}
 	e.cw.Close()
+	if len(e.longCases) > 0 {
+		txt := coqHeader + "\nDefinition cases : list case := [\n " + strings.Join(e.longCases, ";\n ") +
+			"\n].\nDefinition verif_mismatches : list Z := Eval vm_compute in mismatches cases.\nPrint verif_mismatches.\n"
+		if err := os.WriteFile(a.Path("cases_long.v"), []byte(txt), 0o644); err != nil {
+			panic(err)
+		}
+	}
 	for k, v := range e.extra {
 		rep.Extra[k] = v
 	}
